@@ -55,7 +55,7 @@ def check(rep):
         has_open = "open" in kinds
         hist["open component" if has_open else "complete components"] = hist.get("open component" if has_open else "complete components", 0) + 1
         if r.error is not None and not isinstance(r.error, RuntimeError):
-            if "Draw" in type(r.error).__name__ or "endless loop" in str(r.error):
+            if "Draw" in type(r.error).__name__ or fw.scipy_draw_failure(r.error):
                 continue  # scipy's sampler failed: C11
             rep.fail("oracle", f"iteration failed with {type(r.error).__name__}: {str(r.error)[:100]}", ident, expected="molecules", observed=fw.exc_class(r.error))
             continue
@@ -158,7 +158,7 @@ def check(rep):
                     if len(order) > 20000:
                         raise RuntimeError("harness: too many molecules")
         except Exception as e:  # noqa
-            if "endless loop" in str(e):
+            if fw.scipy_draw_failure(e):
                 continue
             rep.fail("oracle", f"interleaved iterations of one system raised {type(e).__name__}: {str(e)[:80]}", {"text": text, "system_molweight": smw, "seeds": seeds, "mode": "interleaved"},
                      expected="molecules", observed=fw.exc_class(e))
